@@ -522,3 +522,46 @@ Qed.
 Example ws_variant_same_tokens :
   lex cl_ascii (b " a : b" ++ [ascii_of_nat 9] ++ b "AND" ++ [ascii_of_nat 10] ++ b "- c ") = lex cl_ascii (b "a:b  AND -c").
 Proof. apply (lex_ws cl_ascii cl_ascii_ws _ _ ws_variant_example); reflexivity. Qed.
+
+(* ---------- tokens written one after the other with single blanks between them ---------- *)
+Section S.
+Variable cl : classes.
+Hypothesis ws_not_alnum : forall r, is_space r = true -> is_alnum cl r = false.
+
+Definition sp : ascii := " "%char.
+Fixpoint spaced (ts : list token) : bytes := match ts with [] => [] | t :: r => val t ++ sp :: spaced r end.
+(* a token that is what the lexer makes of its own text *)
+Definition lexes_alone (t : token) : Prop :=
+  next_token cl (val t) = (t, []) /\ proper t /\ clean cl t /\ asc (val t).
+
+Lemma sp_ws : ws_byte sp = true. Proof. reflexivity. Qed.
+Lemma asc_spaced ts : Forall lexes_alone ts -> asc (spaced ts).
+Proof.
+  induction 1 as [|t ts (_ & _ & _ & A) _ IH]; [reflexivity|]. cbn [spaced]. apply asc_app. split; [exact A|]. apply asc_cons. split; [reflexivity|exact IH].
+Qed.
+
+Theorem lex_spaced : forall ts, Forall lexes_alone ts -> forall f, List.length (spaced ts) < f -> lex_all cl f (spaced ts) = ts ++ [eof_tok].
+Proof.
+  induction 1 as [|t ts (N & P & C & A) Hts IH]; intros f Hf.
+  - destruct f as [|f]; [cbn in Hf; lia|]. reflexivity.
+  - destruct f as [|f]; [cbn in Hf; lia|]. cbn [spaced app] in *.
+    assert (N' : next_token cl (val t ++ sp :: spaced ts) = (t, sp :: spaced ts)).
+    { apply (next_token_ctx cl ws_not_alnum t [] (sp :: spaced ts)).
+      - rewrite app_nil_r. exact A.
+      - apply asc_cons. split; [reflexivity|apply asc_spaced; exact Hts].
+      - rewrite app_nil_r. exact N.
+      - exact P.
+      - exact C.
+      - left. reflexivity. }
+    rewrite (lex_all_proper cl f t (sp :: spaced ts) _ N' P).
+    destruct f as [|f]; [rewrite app_length in Hf; cbn in Hf; lia|].
+    f_equal.
+    (* the blank is skipped *)
+    assert (E : lex_all cl (S f) (sp :: spaced ts) = lex_all cl (S f) (spaced ts)).
+    { cbn [lex_all]. change (sp :: spaced ts) with ([sp] ++ spaced ts). rewrite (next_token_ws cl [sp] (spaced ts) eq_refl). reflexivity. }
+    rewrite E. apply IH. rewrite app_length in Hf. cbn in Hf. lia.
+Qed.
+
+Corollary lex_spaced_text ts : Forall lexes_alone ts -> lex cl (spaced ts) = ts ++ [eof_tok].
+Proof. intros H. unfold lex. apply lex_spaced; [exact H|lia]. Qed.
+End S.
